@@ -25,6 +25,9 @@ const DOCS: &[&str] = &[
     "",
     "--- a\n--- b\n",
     "k: &a [1, 2]\nj: *a\n",
+    "a: xé",
+    "- 日本",
+    "k: 😀",
 ];
 
 const KINDS: [io::ErrorKind; 4] = [io::ErrorKind::Other, io::ErrorKind::BrokenPipe, io::ErrorKind::InvalidData, io::ErrorKind::UnexpectedEof];
@@ -285,6 +288,8 @@ pub fn run(ctx: &mut Ctx) {
             let replay = json!({"kind": "writer", "fail_at": k, "sticky": sticky});
             if r.is_ok() {
                 ctx.fail("write-fault-swallowed", format!("writer failing at write #{k} (sticky={sticky}): serialization returned Ok"), replay);
+            } else if !matches!(&r, Err(serde_saphyr::ser::Error::IO { error }) if error.kind() == io::ErrorKind::Other) {
+                ctx.fail("write-fault-not-reported-as-io", format!("writer failing at write #{k} (sticky={sticky}): serialization returned {r:?}, not the writer's I/O error"), replay);
             } else if !full.starts_with(&w.written) {
                 let class = if !sticky { "F22:write-after-failure" } else { "written-not-a-prefix" };
                 ctx.fail(class, format!("writer failing at write #{k} (sticky={sticky}): what was written is not a prefix of the fault-free output: {:?}",
